@@ -130,35 +130,27 @@ unsafe fn level_swap<M: Manager>(
         // lower level, and keep the original node at the upper level (with the
         // children replaced by the newly created ones).
 
-        let grandchildren: SmallVec<[_; 2]> = children
-            .iter()
-            .map(|c| {
-                // A child of a node at the old upper level can only reference
-                // a node at the old lower, i.e., the new upper level, or any
-                // level below `lower_no`.
-                match manager.get_node(c) {
-                    Node::Inner(node) if node.level() == lower_no_pre => {
-                        // We have exclusive access to the node
-                        let children: SmallVec<[_; 2]> =
-                            M::Rules::cofactors(c.tag(), node).collect();
-                        debug_assert_eq!(children.len(), M::InnerNode::ARITY);
-                        children
-                    }
-                    node => {
-                        // The child is below the lower level, so we always have
-                        // this child
-                        (0..M::InnerNode::ARITY).map(|_| c.borrowed()).collect()
-                    }
+        // `grandchild(c, i)`: the `i`-th cofactor of the child `c` with respect
+        // to the old lower level (an owned edge). A child of a node at the old
+        // upper level can only reference a node at the old lower, i.e., the
+        // new upper level, or any level below `lower_no`. In the latter case
+        // the child skips the old lower level, and the rules tell us what this
+        // means (BDD-like: the child itself; ZBDD: ∅ for `hi`).
+        let grandchild = |c: &Borrowed<M::Edge>, i: usize| -> M::Edge {
+            match manager.get_node(c) {
+                Node::Inner(node) if node.level() == lower_no_pre => {
+                    manager.clone_edge(&M::Rules::cofactor(c.tag(), node, i))
                 }
-            })
-            .collect();
+                _ => <M::Rules as DiagramRules<_, _, _>>::skipped_level_cofactor(manager, &**c, i),
+            }
+        };
 
         let new_children: SmallVec<[_; 2]> = (0..M::InnerNode::ARITY)
             .map(|i| {
                 let res = <M::Rules as DiagramRules<_, _, _>>::reduce(
                     manager,
                     upper_no_pre,
-                    grandchildren.iter().map(|v| manager.clone_edge(&v[i])),
+                    children.iter().map(|c| grandchild(c, i)),
                 );
                 match res {
                     ReducedOrNew::Reduced(e) => e,
@@ -181,8 +173,6 @@ unsafe fn level_swap<M: Manager>(
                 }
             })
             .collect();
-
-        drop(grandchildren);
 
         for (i, child) in new_children.into_iter().enumerate() {
             // SAFETY: we have exclusive access to all nodes at the old upper
